@@ -271,3 +271,78 @@ Lemma std_contain_file_classes_agree_inhabited :
   /\ std_fs_classes_case in_class_file_same_one_carry (B "file:///C:/a/b") [(B "file:/p", false, B "file:///C:/p")] = true
   /\ std_fs_classes_case in_class_file_same_drive (B "file:///tmp/d?q") [(B "file:C|/y", false, B "file:///C:/y")] = true.
 Proof. vm_compute. repeat split. Qed.
+
+(* (2) the Standard side alone: every reference meets std_file_same_pre against the Standard's parse result of the base,
+   the Standard succeeds, keeps scheme / host / port and gives the expected href *)
+Definition std_fs_same_case (base : list N) (refs : list (list N * list N)) : bool :=
+  let idna := ex_idna_clean in
+  match spec_basic_url_parse (spec_host_parser idna) base None with
+  | BDone sb =>
+      negb (has_opaque_path sb) && list_eqb (su_scheme sb) str_file
+      && forallb (fun re =>
+           std_file_same_pre sb (spec_clean (fst re)) && negb (std_contain_pre sb (spec_clean (fst re)))
+           && match spec_basic_url_parse (spec_host_parser idna) (fst re) (Some sb) with
+              | BDone su =>
+                  list_eqb (su_scheme su) (su_scheme sb)
+                  && list_eqb (get_host spec_host_serializer su) (get_host spec_host_serializer sb)
+                  && list_eqb (get_port su) (get_port sb)
+                  && list_eqb (get_href spec_host_serializer su) (snd re)
+              | _ => false
+              end) refs
+  | _ => false
+  end.
+
+(* (2) with the crate: references in in_class_file_same_any; both succeed, host text kept, the Standard's href is the
+   model's serialization and equals the expected text *)
+Definition std_fs_same_agree_case (base : list N) (refs : list (list N * list N)) : bool :=
+  let idna := ex_idna_clean in
+  match parse_url true (host_parse idna) host_parse_opaque host_display None None base,
+        spec_basic_url_parse (spec_host_parser idna) base None with
+  | POk b, BDone sb =>
+      spec_base_ok sb
+      && forallb (fun re =>
+           in_class_file_same_any sb (fst re)
+           && match spec_basic_url_parse (spec_host_parser idna) (fst re) (Some sb),
+                    parse_url true (host_parse idna) host_parse_opaque host_display None (Some b) (fst re) with
+              | BDone su, POk u' =>
+                  list_eqb (get_host spec_host_serializer su) (get_host spec_host_serializer sb)
+                  && list_eqb (get_href spec_host_serializer su) (ser u')
+                  && list_eqb (ser u') (snd re)
+              | _, _ => false
+              end) refs
+  | _, _ => false
+  end.
+
+Lemma std_contain_file_same_inhabited :
+  std_fs_same_case (B "file://h.x/tmp/d?q") [(B "file:x", B "file://h.x/tmp/x"); (B "file:/x", B "file://h.x/x");
+      (B "file:\x", B "file://h.x/x"); (B "file:C|/y", B "file://h.x/C:/y"); (B "FILE:../e?k#g", B "file://h.x/e?k#g")] = true
+  /\ std_fs_same_case (B "file:///C:/a/b") [(B "file:/p", B "file:///C:/p"); (B "file:x", B "file:///C:/a/x")] = true
+  /\ std_fs_same_agree_case (B "file://h.x/tmp/d?q") [(B "file:x", B "file://h.x/tmp/x"); (B "file:/x", B "file://h.x/x");
+      (B " file:\x?k#g", B "file://h.x/x?k#g")] = true
+  /\ std_fs_same_agree_case (B "file:///C:/a/b") [(B "file:/p", B "file:///C:/p")] = true
+  /\ std_fs_same_agree_case (B "file:///tmp/d?q") [(B "file:C|/y", B "file:///C:/y")] = true.
+Proof. vm_compute. repeat split. Qed.
+
+(* where the crate leaves the Standard on these shapes (the drive-letter branch of parse_file again, F-C01-1 / F-C08-1):
+   "file:C|/y" against a file base WITH a host meets std_file_same_pre, the Standard keeps the host, the model of
+   Url::join drops it *)
+Definition std_file_same_diverge_case (base r std_href model_ser : list N) : bool :=
+  let idna := ex_idna_clean in
+  match parse_url true (host_parse idna) host_parse_opaque host_display None None base,
+        spec_basic_url_parse (spec_host_parser idna) base None with
+  | POk b, BDone sb =>
+      std_file_same_pre sb (spec_clean r)
+      && match spec_basic_url_parse (spec_host_parser idna) r (Some sb),
+               parse_url true (host_parse idna) host_parse_opaque host_display None (Some b) r with
+         | BDone su, POk u' =>
+             list_eqb (get_href spec_host_serializer su) std_href && list_eqb (ser u') model_ser
+             && list_eqb (get_host spec_host_serializer su) (get_host spec_host_serializer sb)
+             && negb (list_eqb std_href model_ser)
+         | _, _ => false
+         end
+  | _, _ => false
+  end.
+
+Lemma std_file_same_drive_divergence :
+  std_file_same_diverge_case (B "file://h.x/tmp/d") (B "file:C|/y") (B "file://h.x/C:/y") (B "file:///C:/y") = true.
+Proof. vm_compute. reflexivity. Qed.
